@@ -65,3 +65,19 @@ Proof. exact text_roundtrip_core. Qed.
 (* the side condition lex_safe_doc is needed (keys that are literals/operators, bare-emitted strings ...) *)
 Theorem C04_scalars_survive_full_refuted : ~ lex_emit_core_full.
 Proof. exact lex_emit_core_full_refuted. Qed.
+
+From OV Require Rt.TokRound2 Rt.TokRound2Ex.
+From OV Require Rt.BareWordParse Rt.BareWordLex Rt.BareWord Rt.BareWordEx.
+(* BARE strings keep value and kind: a string the emitter writes without quotes (bare_ok / var_ok) comes back as the same
+   string, never as a literal, number or operator, at every depth, in lists and in META (core3) *)
+Theorem C04_bare_strings_survive_text_core3 :
+  forall cls numcanon holo_ok strict sp d,
+    BareWordParse.core3_doc d = true -> BareWord.lex_safe3_doc d = true ->
+    TokRound2.nums_ok2_l numcanon TokRound2Ex.ex_idnum (dsections d) -> Forall (TokRound2.field_num_ok numcanon) (dmeta d) ->
+    exists warns, parse_model cls numcanon holo_ok strict (lines_of (emit sp d)) = PRDoc d [] warns /\ Forall advisory warns.
+Proof. exact BareWord.text_roundtrip_core3. Qed.
+(* ... and the reserved-word-segment strings the emitter leaves bare (true.x) are a genuine counterexample outside lex_safe3 *)
+Theorem C04_bare_reserved_segment_refuted :
+  exists d, BareWordParse.core3_doc d = true /\ BareWord.lex_safe3_doc d = false /\
+            ~ BareWordEx.lex_emit_core3_concl TokRoundEx.ex_cls (fun _ => false) d /\ BareWordEx.rt3_fails d.
+Proof. exact BareWordEx.lex_emit_core3_refuted_reserved_segment_true. Qed.
